@@ -76,6 +76,7 @@ func (fr *Frame) callStatic(fn *ssa.Function, args []Val, st *State, pos token.P
 		if ct != nil && !ct.Inline {
 			return fr.callContract(fn, ct, args, st, pos)
 		}
+		fr.callSiteObligations(rel, fn, args, st, pos)
 		return fr.inlineCall(fn, args, nil, st, pos)
 	}
 	// assumed contract of an external function: `//@ func ext:pkg.Func[/DynamicType]`
@@ -166,6 +167,18 @@ func (fr *Frame) extContract(fn *ssa.Function, site ssa.CallInstruction) (string
 				k := "ext:" + name + "@" + shortTypeName(mi.X.Type())
 				if ct := cf.Contracts[k]; ct != nil {
 					return k, ct
+				}
+			}
+			// sort.Sort(sort.Reverse(x)): keyed by the type of x (sort.Reverse is modelled as the identity,
+			// the reversal is part of the contract registered under @reverse:T)
+			if c, ok := a.(*ssa.Call); ok {
+				if cf2 := c.Call.StaticCallee(); cf2 != nil && cf2.String() == "sort.Reverse" && len(c.Call.Args) == 1 {
+					if mi, ok := c.Call.Args[0].(*ssa.MakeInterface); ok {
+						k := "ext:" + name + "@reverse:" + shortTypeName(mi.X.Type())
+						if ct := cf.Contracts[k]; ct != nil {
+							return k, ct
+						}
+					}
 				}
 			}
 		}
@@ -333,6 +346,24 @@ func (fr *Frame) evalClauseWith(cl *Clause, lookup func(cp ClauseParam, old bool
 	fn := vc.L.SSA.Func(cl.GoName)
 	if fn == nil {
 		fail("clause function %s missing", cl.GoName)
+	}
+	// Values a clause reads from memory are well-formed like any other loaded
+	// value (they refer to allocated objects only); the facts are collected
+	// during the pure evaluation and assumed in the state the clause is
+	// evaluated in.
+	if vc.wfCollect == nil && !st.pure && !fr.pure {
+		var facts []Term
+		vc.wfCollect = &facts
+		defer func() {
+			vc.wfCollect = nil
+			seen := map[string]bool{}
+			for _, f := range facts {
+				if !seen[f.S] {
+					seen[f.S] = true
+					st.Assume(f)
+				}
+			}
+		}()
 	}
 	var oldVals map[ssa.Value]Val
 	var oldFrame *Frame
@@ -858,9 +889,16 @@ func (vc *VC) ensureSpecDef(fn *ssa.Function, name string, heaps []string) {
 	}
 	if isUninterpretedSpec(fn) || vc.L.Opaque[originName(fn)] || vc.opaqueHere(originName(fn)) {
 		vc.Uninterp(name, vc.specParamSorts(fn, heaps), vc.resultSort(fn))
-		vc.assumptions["uninterpreted:"+fn.Name()] = true
+		if isUninterpretedSpec(fn) || vc.L.Opaque[originName(fn)] {
+			vc.assumptions["uninterpreted spec function (constrained only by the listed axioms): "+fn.Name()] = true
+		} else {
+			vc.assumptions["definition hidden in some queries (opt opaque; hiding a definition can only lose proofs, not admit wrong ones): "+fn.Name()] = true
+		}
 		return
 	}
+	savedWf := vc.wfCollect
+	vc.wfCollect = nil
+	defer func() { vc.wfCollect = savedWf }()
 	g := &GDef{Name: name, Ret: vc.resultSort(fn)}
 	vc.addGDef(g) // register first: recursion
 	st := &State{pure: true, reach: True, cells: map[*Cell]Term{}, heaps: map[string]Term{}, armed: map[*ssa.Defer]Term{}}
@@ -980,7 +1018,9 @@ func (fr *Frame) intrinsic(fn *ssa.Function, args []Val, st *State, pos token.Po
 			return TV(T(SBool, "(forall ((%s Int)) %s)", bv.S, withPatterns(Implies(rng, body).S, pats))), true
 		}
 		return TV(T(SBool, "(exists ((%s Int)) %s)", bv.S, withPatterns(And(rng, body).S, pats))), true
-	case "forallStr", "existsStr", "forallInt", "existsInt":
+	case "forallStr", "existsStr", "forallInt", "existsInt", "forallProbe":
+		// forallProbe: in proofs an unbounded quantifier over strings; when a
+		// contract is executed (bounded stand-in) it ranges over a probe pool
 		clo := args[0].Clo
 		if f, ok := site.Common().Args[0].(*ssa.Function); ok && clo == nil {
 			clo = &Closure{Fn: f}
@@ -1019,6 +1059,9 @@ func (fr *Frame) intrinsic(fn *ssa.Function, args []Val, st *State, pos token.Po
 		return TV(vc.ghost(st, "$trace", STrace)), true
 	case "traceCall":
 		return TV(App(STrace, "tsnoc", args[0].T, args[1].T, asPtr(args[2]), asPtr(args[3]), asPtr(args[4]))), true
+	case "visited":
+		// visited(k): key k was already produced by the enclosing range over a string-keyed map
+		return TV(Sel(vc.ghost(st, "$rangevisited", visitedSort), args[0].T, SBool)), true
 	case "ghostHas":
 		nm, ok := constString(site.Common().Args[0])
 		if !ok {
@@ -1189,6 +1232,28 @@ func (fr *Frame) builtinAppend(x ssa.CallInstruction, args []Val, st *State) (Va
 	// frame: in-place growth writes into the backing array of s
 	fr.frameCheckArr(st, elemT, SArr(s), fits, x.Pos())
 	st.heaps[name] = vc.Define(name, nh)
+	// bridge (a consequence of the two cases above, stated over the element
+	// accessor so that witnesses found in the old slice carry over to the
+	// result and back): the old elements are the first elements of the result
+	{
+		newRow := Sel(st.heaps[name], SArr(res), RowSort(es))
+		j := "j!" + fmt.Sprint(vc.fresh)
+		vc.fresh++
+		newAt := func(k string) string { return fmt.Sprintf("(%s %s %s %s)", elemFn, newRow.S, res.S, k) }
+		var pats []string
+		for _, p := range []string{newAt(j), oldAt(j)} {
+			if vc.patternOKDeep(p) {
+				pats = append(pats, ":pattern ("+p+")")
+			}
+		}
+		if len(pats) > 0 {
+			st.Assume(T(SBool, "(forall ((%s Int)) (! (=> (and (<= 0 %s) (< %s %s)) (= %s %s)) %s))",
+				j, j, j, SLen(s).S, newAt(j), oldAt(j), strings.Join(pats, " ")))
+		}
+		if single {
+			st.Assume(T(SBool, "(= %s %s)", newAt(SLen(s).S), Sel(srcRow, SOff(t), es).S))
+		}
+	}
 	return TV(res), st
 }
 
@@ -1270,17 +1335,25 @@ func (fr *Frame) callContract(fn *ssa.Function, ct *Contract, args []Val, st *St
 			return Val{}
 		}
 	}
-	// call-site obligations registered by the function under verification
-	if vc.ct != nil && vc.dry == 0 {
-		for _, cl := range vc.ct.CallSites[rel] {
-			g := fr.evalCallSite(cl, vc.funcValue(fn), args, st)
-			vc.callCount++
-			vc.curClauseProps = cl.Props
-			vc.Oblige("callsite", fmt.Sprintf("%s#%d.%s", fn.Name(), vc.callCount, cl.Label), pos, st, g, cl.Src)
-			vc.curClauseProps = nil
-		}
-	}
+	fr.callSiteObligations(rel, fn, args, st, pos)
 	return fr.callByContract(rel, fn.Name(), ct, fn.Signature.Results(), mk, st, pos)
+}
+
+// callSiteObligations: call-site clauses registered by the function under
+// verification for the statically called package function rel.
+func (fr *Frame) callSiteObligations(rel string, fn *ssa.Function, args []Val, st *State, pos token.Pos) {
+	vc := fr.vc
+	if vc.ct == nil || vc.dry != 0 || fr.pure {
+		return
+	}
+	for _, cl := range vc.ct.CallSites[rel] {
+		g := fr.evalCallSite(cl, vc.funcValue(fn), args, st)
+		vc.callCount++
+		vc.fired(cl)
+		vc.curClauseProps = cl.Props
+		vc.Oblige("callsite", fmt.Sprintf("%s#%d.%s", fn.Name(), vc.callCount, cl.Label), pos, st, g, cl.Src)
+		vc.curClauseProps = nil
+	}
 }
 
 // callByContract: assert the precondition, apply the frame, assume the postcondition.
